@@ -176,13 +176,14 @@ var uPm1 = u64(glP - 1)
 
 // Shadow is the per-value monitor state.
 type Shadow struct {
-	Adv  U256
-	Hon  U256
-	Leaf int64 // leaf key (>=0) for inputs / hint outputs, -1 otherwise
+	Adv   U256
+	Hon   U256
+	Leaf  int64 // leaf key (>=0) for inputs / hint outputs, -1 otherwise
+	Canon bool  // the value was passed through the chip's canonical range check (RangeCheck)
 }
 
 // LeafKey encodings
-func hintLeafKey(seq uint64, idx int) int64 { return int64(seq)<<6 | int64(idx) | 1<<62 }
+func hintLeafKey(seq uint64, idx int) int64 { return int64(seq)<<10 | int64(idx) | 1<<62 }
 func InputLeafKey(i int) int64               { return int64(i) }
 
 // ShadowCfg carries the bound table between passes.
@@ -214,6 +215,7 @@ type ShadowReport struct {
 	Findings  map[string]*Finding
 	FindCount map[string]uint64
 	Changed   int // number of leaf bounds newly learned in this pass
+	CanonMarks int // values seen entering the chip's canonical range check (0 = the monitor is blind to it)
 }
 
 func NewShadowReport() *ShadowReport {
@@ -415,6 +417,10 @@ func (s *shadowState) onHint(ev *HintEvent, in []*V, out []frontend.Variable) {
 	case "SplitLimbsHint":
 		hon[0] = uMin(u64(0xFFFFFFFF), uDivSmall(in[0].S.Hon, 1<<32))
 		hon[1] = u64(0xFFFFFFFF)
+		if strings.HasPrefix(ev.Site, "goldilocks.(*Chip).RangeCheck<") || ev.Site == "goldilocks.(*Chip).RangeCheck" {
+			in[0].S.Canon = true
+			s.cfg.Report.CanonMarks++
+		}
 	case "nBits", "NBits", "ithBit":
 		for i := range hon {
 			hon[i] = u64(1)
@@ -470,6 +476,12 @@ func (s *shadowState) finish() {
 		if adv.Cmp(uRm1) >= 0 {
 			s.finding("output_unbounded", po.site, fmt.Sprintf("%s output %d never receives a width", po.hint, po.idx))
 			continue
+		}
+		// uniqueness of the Euclidean division / inverse needs the canonical-form check (< p),
+		// not just a 64-bit width: (q-1, rem+p) satisfies the same integer equation
+		needCanon := (po.hint == "MulAddHint") || (po.hint == "ReduceHint" && po.idx == 1) || po.hint == "InverseHint"
+		if needCanon && !po.v.S.Canon {
+			s.finding("not_canonical_checked", po.site, fmt.Sprintf("%s output %d is never passed through the canonical range check (only a %d-bit width)", po.hint, po.idx, adv.BitLen()))
 		}
 		// completeness is judged for quotients and limbs only: a remainder / inverse may
 		// legitimately be narrowed further by a later semantic check (e.g. proof of work).
